@@ -242,7 +242,7 @@ theorem inv_step {db0 db : DB} {g : Ghost} (h : Inv db0 db g) (op : Op)
       have hid : (step db (.stage b)).1 = db := by
         rcases step_stage_cases db b with ⟨e', he⟩ | ⟨a, ha⟩
         · rw [he]
-        · rw [ha] at hres ⊢; exact fail_is_identity db (.stage a) e hres
+        · rw [ha] at hres ⊢; exact fail_is_identity db (.stage a) e (fun _ _ _ _ => by simp) hres
       rw [hid]; exact h
     | none =>
       obtain ⟨o, hd, hst, hna, hno, hid, _, hpo, hev⟩ := stage_ok db b hm hres
